@@ -66,6 +66,25 @@ NextAny ==
   \/ P!StartSync \/ P!RecvBegin \/ P!Recv \/ P!Consume \/ P!Stage2Fail \/ P!DrainRecv \/ P!DrainEmpty
   \/ P!Exit
 
+(* one obligation per action: IndInv /\ A => IndInv' (run in parallel by the checker) *)
+StepEnter == \E m \in {"sync", "async"} : \E nb \in Nat : \E f1 \in Nat : \E f2 \in Nat :
+               f1 <= nb /\ f2 <= nb /\ P!Enter(m, nb, f1, f2)
+StepAcquire == P!Acquire
+StepLoopEnd == P!LoopEnd
+StepPreSend == P!PreSend
+StepSend == P!Send
+StepSent == P!Sent
+StepPreSendTerm == P!PreSendTerm
+StepSendTerm == P!SendTerm
+StepStartSync == P!StartSync
+StepRecvBegin == P!RecvBegin
+StepRecv == P!Recv
+StepConsume == P!Consume
+StepStage2Fail == P!Stage2Fail
+StepDrainRecv == P!DrainRecv
+StepDrainEmpty == P!DrainEmpty
+StepExit == P!Exit
+
 ---------------------------------------------------------------------------
 InLoop == ppc \in {"acquire", "presend", "sending", "sent"}
 AfterLoop == ppc \in {"preterm", "termsending", "done"}
@@ -131,7 +150,15 @@ IndInit ==
   /\ IndInv
 
 ---------------------------------------------------------------------------
-(* the properties of Pipeline.tla, implied by IndInv alone *)
+(* the properties of Pipeline.tla, implied by IndInv alone (also checked one by one) *)
+PropTypeOK == P!TypeOK
+PropNoOverwriteHeld == P!NoOverwriteHeld
+PropNoOverwriteQueued == P!NoOverwriteQueued
+PropFIFO == P!FIFO
+PropFIFOQueue == P!FIFOQueue
+PropEmptyWhenIdle == P!EmptyWhenIdle
+PropCompleteOnSuccess == P!CompleteOnSuccess
+PropSyncNeverBlocks == (mode = "sync" /\ ppc \in {"sending", "termsending"}) => Len(chan) < CAP
 Props ==
   /\ P!TypeOK
   /\ P!NoOverwriteHeld
